@@ -1,4 +1,4 @@
-import os, sys, subprocess, hashlib, threading, glob, re
+import os, sys, subprocess, hashlib, threading, glob, re, shutil, time
 from concurrent.futures import ThreadPoolExecutor
 
 sys.path.insert(0, os.path.dirname(os.path.abspath(__file__)))
@@ -50,14 +50,23 @@ def build(ctx, tier):
     hs = header_state(b)
     cc = ['/usr/bin/mpicc', '-std=gnu11', '-O0', '-w', '-mcx16'] + defs + inc + ['-I' + gdir, '-I/verif/engine/rt', '-I/repo/parsec']
 
+    ptgpp_id = sha(open(ptgpp, 'rb').read())
+
     def one(ns):
         name, s = ns
-        jdf = os.path.join(gdir, name + '.jdf')
-        open(jdf, 'w').write(gen.jdf_text(name, s))
-        r = subprocess.run([ptgpp, '-E', '--noline', '--Wremoteref', '-i', name + '.jdf', '-o', name, '-f', name], cwd=gdir, capture_output=True, text=True)
-        if r.returncode != 0 or not os.path.exists(os.path.join(gdir, name + '.c')):
-            return 'ptgpp failed on structure %s:\n%s' % (s, r.stdout + r.stderr)
-        key = sha(open(os.path.join(gdir, name + '.c'), 'rb').read() + open(os.path.join(gdir, name + '.h'), 'rb').read() + hs.encode())
+        text = gen.jdf_text(name, s)
+        open(os.path.join(gdir, name + '.jdf'), 'w').write(text)
+        gkey = sha((text + ptgpp_id).encode())
+        gc, gh = os.path.join(cache, 'gen-' + gkey + '.c'), os.path.join(cache, 'gen-' + gkey + '.h')
+        if not (os.path.exists(gc) and os.path.exists(gh)):      # generated code is cached per (jdf text, ptgpp binary)
+            r = subprocess.run([ptgpp, '-E', '--noline', '--Wremoteref', '-i', name + '.jdf', '-o', name, '-f', name], cwd=gdir, capture_output=True, text=True)
+            if r.returncode != 0 or not os.path.exists(os.path.join(gdir, name + '.c')):
+                return 'ptgpp failed on structure %s:\n%s' % (s, r.stdout + r.stderr)
+            shutil.copy(os.path.join(gdir, name + '.h'), gh + '.tmp%d' % os.getpid()); os.replace(gh + '.tmp%d' % os.getpid(), gh)
+            shutil.copy(os.path.join(gdir, name + '.c'), gc + '.tmp%d' % os.getpid()); os.replace(gc + '.tmp%d' % os.getpid(), gc)
+        else:
+            shutil.copy(gc, os.path.join(gdir, name + '.c')); shutil.copy(gh, os.path.join(gdir, name + '.h'))
+        key = sha(open(gc, 'rb').read() + open(gh, 'rb').read() + hs.encode())
         obj = os.path.join(cache, key + '.o')
         if not os.path.exists(obj):
             r = subprocess.run(cc + ['-c', name + '.c', '-o', obj + '.tmp%d' % os.getpid()], cwd=gdir, capture_output=True, text=True)
@@ -81,7 +90,13 @@ def build(ctx, tier):
     r = subprocess.run(['/usr/bin/mpicc'] + extra + objs + ['-o', exe] + ld, capture_output=True, text=True)
     if r.returncode != 0:
         sys.stderr.write(r.stdout + r.stderr); raise vlib.Broken('link failed')
-    # keep the cache small: drop objects not used by this build and older than a day
+    now = time.time()
+    for f in glob.glob(os.path.join(cache, '*')):           # keep the cache small
+        try:
+            if now - os.path.getatime(f) > 2 * 86400 and now - os.path.getmtime(f) > 2 * 86400:
+                os.unlink(f)
+        except OSError:
+            pass
     return exe, len(names)
 
 
